@@ -53,3 +53,15 @@ res = [bool(r.match(M, M.graph, M.graph.node(1))) for r in rules]
 print("4 commute, 3 output nodes, root=Add(b,a):", res, "(the variant with both Adds swapped has the instance x=a, y=b: Add(b,a), Neg(a), Add(a,b) -> one True expected)")
 # the same variant written by hand (not a clone) matches:
 print("  hand-written variant:", bool(pattern.Pattern(lambda op, x, y: (op.Add(y, x), op.Neg(x), op.Add(x, y))).match(M, M.graph, M.graph.node(1))))
+
+# 5. same root cause as 2 (node bindings made inside an OR alternative are dropped by merge), other symptom: the shared node
+#    pattern is matched a second time, its inner OrValue binds its tag_var to a second value, the failed bind is ignored and
+#    merge_current_match raises ValueError("Current match is not successful.")
+M = model([("Neg", ["a"], ["A"]), ("Neg", ["b"], ["t"]), ("Neg", ["t"], ["B"]), ("Sub", ["A", "B"], ["r"])], ["r"])
+def pat5(op, w, y, z):
+    n2 = op.Neg(pattern.OrValue([op.Neg(w), y], tag_var="tg"))
+    return op.Sub(pattern.OrValue([n2, z]), n2)
+try:
+    print("5 shared node with inner tagged OR:", bool(pattern.Pattern(pat5).match(M, M.graph, M.graph.node(3))))
+except Exception as e:
+    print("5 shared node with inner tagged OR: raises", type(e).__name__, e)
